@@ -20,6 +20,9 @@ def replay_validate(run, scen_lines, driver_args, trace_module, trace_cfg, label
     Returns number of scenarios validated."""
     if not scen_lines:
         return 0
+    if len(run.violations) >= 3:
+        run.note("%s: skipped (already %d violations reported)" % (label, len(run.violations)))
+        return 0
     shards = shards or min(NCPU, max(1, len(scen_lines) // 40))
     parts = shard(scen_lines, shards)
     wd = tempfile.mkdtemp(prefix="rp-", dir=run.scratch)
@@ -59,6 +62,8 @@ def replay_validate(run, scen_lines, driver_args, trace_module, trace_cfg, label
         i, sf, tf, p = job
         chunks = split_trace(tf)
         tries = 0
+        if len(run.violations) >= 3 and not r["accepted"]:
+            continue
         while not r["accepted"]:
             tries += 1
             if "line" not in r:
@@ -96,7 +101,7 @@ def replay_validate(run, scen_lines, driver_args, trace_module, trace_cfg, label
             del chunks[idx]
             if idx < len(p):
                 p = p[:idx] + p[idx + 1:]
-            if not chunks or tries > 12:
+            if not chunks or tries > 6 or len(run.violations) >= 3:
                 break
             rest = os.path.join(wd, "rest%d_%d.ndjson" % (i, tries))
             open(rest, "w").write("".join("".join(c) for c in chunks))
